@@ -614,7 +614,7 @@ func c41(r *vkit.Run) {
 			}
 		}
 	}
-	per := r.N(3, 40)
+	per := r.N(5, 60)
 	n := len(cells) * per
 	vkit.Parallel(n, workers, func(i int) {
 		ce := cells[i/per]
@@ -640,7 +640,7 @@ func c41(r *vkit.Run) {
 			}
 		}
 	}
-	rper := r.N(2, 30)
+	rper := r.N(3, 40)
 	vkit.Parallel(len(rcells)*rper, workers, func(i int) {
 		ce := rcells[i/rper]
 		g := r.Rng("rawnego", i/rper, i%rper)
